@@ -181,10 +181,10 @@ def gen_cfg(prop):
 class RealRun:
     """One execution of real wormholes, recorded."""
 
-    def __init__(self, tid, origin, modes=None, appids=None, order_preserving=True):
+    def __init__(self, tid, origin, modes=None, appids=None, order_preserving=True, dilation=False):
         modes = modes or {"A": "deferred", "B": "delegated"}
         self.tid, self.origin = tid, origin
-        self.world = MailboxWorld(seed=tid, clients=tuple(sorted(modes.items())), appids=appids)
+        self.world = MailboxWorld(seed=tid, clients=tuple(sorted(modes.items())), appids=appids, dilation=dilation)
         for name, cl in self.world.clients.items():
             cl.app_versions = {}
         self.bind = Binding(self.world)
@@ -480,6 +480,70 @@ def c03_case(tid, n, perm, reconnect, rng, lazy=False):
             run.apply({"a": "AppGet", "c": "A", "kind": "message"} if b == 1 else {"a": "AppGetBurst", "c": "A", "kind": "message", "n": b})
             k += b
         drained = run.drain() and drained
+    return run, bool(drained), drained, ok
+
+
+def dilating_case(tid, n, perm, who, hold_version=True):
+    """Application messages next to Dilation's own mailbox traffic: both wormholes are created with dilation enabled, the sides
+    in `who` call dilate() (so `dilate-N` phases - please, connection hints - travel through the same mailbox), B sends n
+    application messages, and the server hands B's version, dilation and application frames to A in the order `perm`.  What A's
+    application receives must still be exactly B's messages, in order, once each - and nothing else."""
+    from ..mbworld import pinned_urandom
+    run = RealRun(tid, "dilating-family", modes={"A": "deferred", "B": "deferred"}, dilation=True)
+    w = run.world
+    run.apply({"a": "ConnOpen", "c": "B"})
+    run.apply({"a": "AppSetCode", "c": "B", "code": "4-alpha-beta"})
+    for c in ("B", "A"):
+        if c in who:
+            with pinned_urandom(b"\x5a" if c == "B" else b"\x33"):
+                try:
+                    w.clients[c].dilated = w.clients[c].w.dilate()
+                except Exception as e:
+                    w.clients[c].api_errors.append(("dilate", e))
+    for i in range(n):
+        run.apply({"a": "AppSend", "c": "B", "data": ("m:B:%d" % i).encode().hex()})
+    run.drain()
+    if any(a["a"] == "ConnOpen" and a["c"] == "A" for a in w.enabled(faults=False)):
+        run.apply({"a": "ConnOpen", "c": "A"})
+    run.apply({"a": "AppSetCode", "c": "A", "code": "4-alpha-beta"})
+    bside = w.clients["B"].side
+
+    def is_held(fr):
+        return fr["phase"] != "pake" and (hold_version or fr["phase"] != "version")
+    for _ in range(300):
+        moved = False
+        for a in w.enabled(faults=False):
+            if a["a"] == "Deliver":
+                conn = w.conn(a["k"])
+                fr = conn.s2c[0]
+                # (hold_version=False: B's version message gets through, so A sends its own please, B answers with its
+                # connection hints, and several of B's dilate-N messages wait together with its application messages)
+                if conn.client.name == "A" and fr["type"] == "message" and fr["side"] == bside and is_held(fr):
+                    free = [i for i, f in enumerate(conn.s2c) if not (f["type"] == "message" and f["side"] == bside and is_held(f))]
+                    if free:
+                        run.apply({"a": "MoveS2C", "k": conn.id, "i": free[0], "to": 0})
+                        run.apply(a)
+                        moved = True
+                        break
+                    continue
+            if a["a"] in ("Serve", "Deliver", "CloseDone"):
+                run.apply(a)
+                moved = True
+                break
+        if not moved:
+            break
+    conns = [c for c in w.conns if c.client.name == "A" and c.state == "open" and not c.closing]
+    ok = False
+    if conns:
+        held = [f for f in conns[-1].s2c if f["type"] == "message" and f["side"] == bside and is_held(f)]
+        # (perm: an index into the permutations of however many frames are waiting - version, dilate-0, dilate-1, 0, 1, ...)
+        import itertools
+        import math
+        k = perm % math.factorial(len(held)) if held else 0
+        p = list(next(itertools.islice(itertools.permutations(range(len(held))), k, None)))
+        run.held_phases = [held[i]["phase"] for i in p]
+        ok = _permute_s2c(run, conns[-1], bside, p)
+    drained = run.drain()
     return run, bool(drained), drained, ok
 
 
@@ -1664,6 +1728,23 @@ def run_pipeline(prop, tier, v, quick):
                         runs[tid] = run_
                         records.append(run_.finish(drained, goal=False))
             cov["c08_unread_at_close_cases"] = n
+        if prop in ("C14", "C18", "C03"):
+            # family: application messages next to Dilation's own mailbox traffic (dilate-N phases), every arrival order
+            import itertools
+            n = 0
+            for who in (("A", "B"), ("B",), ("A",)):
+                for perm in (range(len(who), 120, 5) if quick else range(120)):
+                    for n_ in ((2,) if quick else (1, 2, 3)):
+                        tid += 1
+                        n += 1
+                        try:
+                            run_, goal, drained, ok = dilating_case(tid, n_, perm * (1 if n_ < 3 else 6), who, hold_version=bool(perm % 2))
+                        except Exception as e:
+                            cov.setdefault("family_errors", []).append("dilating %s %s: %r" % (who, perm, e))
+                            continue
+                        runs[tid] = run_
+                        records.append(run_.finish(drained, goal=False))
+            cov["dilating_family_cases"] = n
         # ---- 3. code -> spec: random schedules on the real system
         nrand = 120 if quick else 1200
         nlazy = 0
